@@ -794,6 +794,13 @@ impl C08 {
             }
             steps.push(st);
         }
+        // a rules file of its own with a built-in function called with the wrong number of
+        // arguments (the parser rejects it; whatever happens it must not crash later)
+        if r.chance(1, 8) {
+            let text = *r.pick(&["let x = join(a)\nrule zz_arity {\n  %x exists\n}\n", "let x = substring(a, 1)\nrule zz_arity {\n  %x exists\n}\n", "let x = regex_replace(a, \"b\")\nrule zz_arity {\n  %x exists\n}\n", "let x = count()\nrule zz_arity {\n  %x exists\n}\n", "let x = to_upper(a, b)\nrule zz_arity {\n  %x exists\n}\n", "let x = join(a, \",\", b)\nrule zz_arity {\n  %x exists\n}\n", "let x = now(1)\nrule zz_arity {\n  %x exists\n}\n"]);
+            files.push(FileSpec { rel: "rules/zz_arity.guard".into(), bytes: text.as_bytes().to_vec(), mtime_ns: 0 });
+            rep.count("gen.wrong_arity_rules_file", 1);
+        }
         // one rules file that is KNOWN not to conform to the grammar: a line of stray brackets at
         // top level after its last rule (only a file no storage fault has touched, so that the
         // line cannot sit inside a string, a message or a comment)
